@@ -170,6 +170,30 @@ def check(pm: ProgramModel, ctx: Ctx) -> None:
                   f"result after executing a second model equals a fresh object's result for it",
                   bad=f"{ci.name}: result for the second model depends on the earlier execution "
                       f"(got {_short(second)} vs fresh {_short(fresh)})")
+        # a second model that is *equal* to the first under FeatureModel.__eq__ but differs in what equality
+        # ignores (abstract flags, attributes, constraint names): the result must still be the second model's
+        try:
+            it4 = Interp(pm, max_depth=60)
+            natives(it4)
+            e1, e2 = rich_model(mb), _equal_but_different(mb)
+            op4 = setup_op(pm, it4, ci, mb, e1)
+            it4.call(pm.method(ci, "execute"), [op4, e1])
+            if ci.name == "FMFeatureAncestors":
+                it4.call(pm.method(ci, "set_feature"), [op4, [c for r in e2._f["root"]._f["relations"] for c in r._f["children"]][0]])
+            it4.call(pm.method(ci, "execute"), [op4, e2])
+            got_e = canon(it4.call(pm.method(ci, "get_result"), [op4]))
+            it5 = Interp(pm, max_depth=60)
+            natives(it5)
+            e3 = _equal_but_different(mb)
+            op5 = setup_op(pm, it5, ci, mb, e3)
+            it5.call(pm.method(ci, "execute"), [op5, e3])
+            want_e = canon(it5.call(pm.method(ci, "get_result"), [op5]))
+        except (AbsRaise, AbsMutation) as exc:
+            got_e, want_e = ("raise", exc.what), None
+        ctx.check(_strip_ids(got_e) == _strip_ids(want_e), "C19-RESULT", f"equal-model:{ci.name}", where,
+                  "a second model equal to the first (but differing in flags equality ignores) is analysed afresh",
+                  bad=f"{ci.name}: executing a second model that compares equal to the first one returns the first "
+                      f"model's result ({_short(got_e)} vs {_short(want_e)})")
         ctx.check(third == fresh, "C19-RESULT", f"repeat:{ci.name}", where,
                   "repeating execute on the same model gives the same result",
                   bad=f"{ci.name}: repeated execution changes the result ({_short(third)} vs "
@@ -187,12 +211,19 @@ def check(pm: ProgramModel, ctx: Ctx) -> None:
             ma = rich_model(mb)
             opa = setup_op(pm, ita, ci, mb, ma)
             ita.call(pm.method(ci, "execute"), [opa, ma])
+            from ..model import same_names_pair
+            m_chain, m_flat = same_names_pair(mb)
+            opa2 = setup_op(pm, ita, ci, mb, m_chain)
+            ita.call(pm.method(ci, "execute"), [opa2, m_chain])
             mt = twin_model(rich_model(mb))
             itb = Interp(pm, max_depth=60)
             natives(itb)
             opb = setup_op(pm, itb, ci, mb, mt)
             itb.call(pm.method(ci, "execute"), [opb, mt])
             after = canon(itb.call(pm.method(ci, "get_result"), [opb]))
+            opb2 = setup_op(pm, itb, ci, mb, m_flat)
+            itb.call(pm.method(ci, "execute"), [opb2, m_flat])
+            after = [after, canon(itb.call(pm.method(ci, "get_result"), [opb2]))]
             reset_global_state()
             mt2 = twin_model(rich_model(mb))
             itc = Interp(pm, max_depth=60)
@@ -200,6 +231,10 @@ def check(pm: ProgramModel, ctx: Ctx) -> None:
             opc = setup_op(pm, itc, ci, mb, mt2)
             itc.call(pm.method(ci, "execute"), [opc, mt2])
             fresh = canon(itc.call(pm.method(ci, "get_result"), [opc]))
+            _, m_flat2 = same_names_pair(mb)
+            opc2 = setup_op(pm, itc, ci, mb, m_flat2)
+            itc.call(pm.method(ci, "execute"), [opc2, m_flat2])
+            fresh = [fresh, canon(itc.call(pm.method(ci, "get_result"), [opc2]))]
         except (AbsRaise, AbsMutation) as exc:
             ctx.violation("C19-HISTORY", f"history:{ci.name}", where, f"{ci.name}: raises {exc.what}")
             continue
@@ -209,6 +244,19 @@ def check(pm: ProgramModel, ctx: Ctx) -> None:
                       f"operation object (process-wide state): {_short(after)} vs {_short(fresh)}")
     genattr(pm, ctx, mb)
     ctx.floor(rule, "obligations", len(ctx.obligations), 30)
+
+
+def _equal_but_different(mb: ModelBuilder) -> AObj:
+    """rich_model with abstract flags flipped, an extra attribute and renamed constraints: equal to
+    rich_model under FeatureModel.__eq__, different for every operation that looks at those fields."""
+    m = rich_model(mb)
+    for f in _features(m):
+        f._f["is_abstract"] = not f._f["is_abstract"]
+    fs = _features(m)
+    fs[2]._f["attributes"].append(mb.attribute("extra", 1, fs[2]))
+    for i, c in enumerate(m._f["ctcs"]):
+        c._f["name"] = f"renamed{i}"
+    return m
 
 
 def _strip_ids(v: Any) -> Any:
